@@ -9,23 +9,33 @@ def rdiv(x, l):
 
 class C01(Prop):
     pid = "C01"
-    lean_targets = ["M17.Props.C01"]
+    lean_targets = ["M17.Props.C01", "M17.Props.C01F"]
     theorems = ["M17.C01.any_path_ge_base", "M17.C01.sent_path_eq_base", "M17.C01.other_path_gt", "M17.C01.viterbi_clean_exact",
-                "M17.C01.geometries_no_double_erasure"]
-    level_text = ("Lean 4 theorem viterbi_clean_exact: for every soft width, trellis length, input sequence and received vector whose non-erased "
-                  "values have the transmitted signs with ANY magnitudes 1..L (erasures allowed while each trellis step keeps one value) the "
-                  "modelled decoder returns exactly the transmitted bits and cost round(sum(L-|r|)/L), hence 0 at full confidence (proof: the "
-                  "transmitted path attains a path-independent lower bound; any other path is strictly worse at its first differing step "
-                  "because both generator polynomials contain x^0); geometries_no_double_erasure (kernel evaluation) shows the four M17 puncture "
-                  "geometries meet the side condition. The other stages of a frame are proved in their own files (randomizer/interleaver "
-                  "inverses C10, depuncture-after-puncture C11, Golay C04, LICH unpack C05, CRC C09, state machine C08); their composition into "
-                  "one frame-level statement is NOT a single Lean theorem — it is checked on every run by decoding specification-encoded frames "
-                  "(independent encoder) and frames produced in-process by m17-mod's and M17Modulator's own transmit functions, all magnitudes, "
-                  "all six LICH numbers, against the real decoder and against the model.")
+                "M17.C01.geometries_no_double_erasure",
+                "M17.C01F.dc_bridge", "M17.C01F.condition_image", "M17.C01F.punct_eq", "M17.C01F.geometries_noDouble",
+                "M17.C01F.depunct_consistent", "M17.C01F.fec_clean", "M17.C01F.pack_bitsOfBytes",
+                "M17.C01F.lsf_roundtrip", "M17.C01F.stream_roundtrip", "M17.C01F.packet_roundtrip", "M17.C01F.bert_roundtrip",
+                "M17.C01F.lich_roundtrip", "M17.C01F.lich_callback",
+                "M17.C01F.lsf_cost_zero", "M17.C01F.stream_cost_zero", "M17.C01F.packet_cost_zero", "M17.C01F.softAt_image"]
+    level_text = ("Lean 4 frame-level theorems (M17.Props.C01F) about the decoder model Dec.step fed with ANY clean soft image (correct signs, "
+                  "per-position magnitudes 1..7) of a frame built by the independent specification encoder Spec.Tx (convolutional code, puncture, "
+                  "interleave, randomize; Golay + LICH packing): lsf_roundtrip (every 30-byte LSF, every decoder state: the 30 bytes are decoded "
+                  "exactly, reported with result OK iff the CRC checks, else FAIL without a callback), stream_roundtrip (stream mode: callback = the "
+                  "18 data bytes, any LICH fragment), lich_roundtrip / lich_callback (link-setup mode: unpack_lich returns exactly the five LSF bytes "
+                  "of slot n mod 6 and the counter, for every n), packet_roundtrip (all 2^206 payloads, both packet modes, EOF rule), "
+                  "bert_roundtrip (all 2^197), each with cost = round(slack/7) and *_cost_zero: cost 0 when every soft value is +-7. They compose "
+                  "per-stage lemmas proved here and in C02/C04/C05/C09/C10/C11: dc_bridge (spec randomizer bytes = the code's +-1 table), "
+                  "condition_image (de-randomize + de-interleave undo the spec's interleave + randomize on soft values), punct_eq (spec puncturing = "
+                  "the code's loop), depunct_consistent + geometries_noDouble (kernel evaluation: no trellis step of the four geometries loses both "
+                  "bits), viterbi_clean_exact (the transmitted path is the unique minimum, any width/length), pack_bitsOfBytes, Golay zero-error "
+                  "decode. The three transmitters: Spec.Tx is the independent encoder; m17-mod and M17Modulator are shown byte-equal to Spec.Tx "
+                  "frames in C13/C14 and are decoded in-process here.")
     design_ref = "DESIGN.md §5 C01"
-    level_note = ("Trusted: Lean kernel; hand translations validated by correspondence. Partial: frame-level composition of the per-stage "
-                  "theorems is by correspondence, not by a theorem. Axioms: propext, Classical.choice, Quot.sound only.")
-    technique = "Lean 4 proof (uniqueness of the minimum-distance path for sign-consistent input, all lengths/widths) + per-stage theorems + end-to-end differential runs with three transmitters"
+    level_note = ("Trusted: Lean kernel; the hand-written decoder model (tied to M17FrameDecoder by the dec-clean correspondence on every run) and "
+                  "the specification encoder Spec.Tx (tied bit-for-bit to the python and C++ specification encoders and, through C13/C14, to the "
+                  "repository's transmitters on every run). The theorems cover soft magnitudes 1..7 (what the 4-bit demapper emits); cost for "
+                  "magnitudes below 7 is round(slack/7), 0 exactly at full confidence. Axioms: propext, Classical.choice, Quot.sound only.")
+    technique = "Lean 4 proof: frame-level round-trip theorems for all payloads/states/magnitudes (composition of randomizer, interleaver, puncture, Viterbi, Golay, CRC, packing lemmas) + model/implementation and spec-encoder correspondence runs with three transmitters"
     rule = ("clean frames of the four kinds (LSF valid/invalid CRC, stream with each LICH number in both decoder modes, packet mid/EOF, BERT) from the "
             "independent specification encoder, from m17-mod's send_lsf/make_lich_segment/make_data_frame/make_bert_frame and from M17Modulator, "
             "mapped to soft values at uniform magnitude 1..7 and at per-position random magnitudes; oracle: payload bit-exact, result code, "
@@ -93,6 +103,7 @@ class C01(Prop):
                 add(3, S.soft(S.bert_frame_bits(bits), m), {"kind": "bert", "calls": [(5, list(S.pack(bits)))], "result": 1, "cost": None, "mode": 4})
         impl = ctx.run_impl(exe, lines, "dec-clean")
         self.judge(ctx, lines, exp, impl, "spec-encoder")
+        self.spec_tie(ctx)
         if ctx.model_ok:
             model = ctx.run_model(lines)
             ctx.compare("dec-clean", lines, impl, model, oracle=lambda ln, a: None, sig=lambda ln: "step")
@@ -101,6 +112,31 @@ class C01(Prop):
         self.txrx_modulator(ctx, exe)
         j = next(i for i, e in enumerate(exp) if e and e["kind"] == "stream")
         ctx.sample({"frame": exp[j]["kind"], "request": lines[j][:50] + "...", "reply": impl[j][:140]})
+
+    def spec_tie(self, ctx):
+        """the frames the theorems speak about (Lean Spec.Tx.*FrameBits) are bit-for-bit the frames of the python specification encoder
+        that this check feeds to the real decoder"""
+        if not ctx.model_ok:
+            return
+        rng = ctx.rng
+        g = decgen.Gen(rng)
+        reqs, want = [], []
+        for _ in range(12 if ctx.tier == "quick" else 300):
+            lsf = g.rand_lsf(rng.choice([0x0005, 0x0007, 0x0002, 0x0003]))
+            reqs.append("spec_frame_bits 0 " + " ".join(map(str, lsf))); want.append(S.lsf_frame_bits(lsf))
+            n = rng.randrange(8); fn = rng.randrange(0x10000); pl = bytes(rng.randrange(256) for _ in range(16))
+            reqs.append(f"spec_frame_bits 1 {n} " + " ".join(map(str, list(lsf) + list(fn.to_bytes(2, "big") + pl))))
+            want.append(S.stream_frame_bits(lsf, n, fn, pl))
+            b = [rng.randrange(2) for _ in range(206)]
+            reqs.append("spec_frame_bits 2 " + " ".join(map(str, b))); want.append(S.packet_frame_bits(b))
+            b = [rng.randrange(2) for _ in range(197)]
+            reqs.append("spec_frame_bits 3 " + " ".join(map(str, b))); want.append(S.bert_frame_bits(b))
+        got = ctx.run_model(reqs)
+        for ln, a, w in zip(reqs, got, want):
+            ctx.evaluations += 1
+            ctx.stat("spec-tie:kind" + ln.split()[1])
+            if a != " ".join(map(str, w)):
+                raise core.BuildError("Lean Spec.Tx frame bits differ from the python specification encoder on `%s`" % ln[:80], a[:200])
 
     def judge(self, ctx, lines, exp, impl, who):
         for ln, e, a in zip(lines, exp, impl):
